@@ -209,6 +209,30 @@ def _discharge(F, f, b, par, kind, x, text):
         if r.get("k") == "Binary" and r["op"] == "Mul" and 7 in (const_eval(r["l"]), const_eval(r["r"])):
             return "G-ctr: shift by 7 * index with index <= 3 (T-varint2 cap), < 32"
         return None
+    if kind == "Sub":
+        r_ = strip(x["r"])
+        if r_.get("k") == "Call" and r_["fn"].get("name") in ("leading_zeros", "trailing_zeros", "count_ones", "count_zeros", "leading_ones", "trailing_ones") \
+                and (const_eval(x["l"]) in (8, 16, 32, 64, 128) or pp(strip(x["l"])).endswith("BITS")):
+            return "G-bits: a bit count of an integer never exceeds its width"
+    if kind == "Sub":
+        # G-dom-while: `a - b` inside `while b < a { .. }` before either operand is written in the iteration
+        an_, bn_ = pp(strip(x["l"])), pp(strip(x["r"]))
+        w_ = _enclosing(par, x, ("While",))
+        if w_ is not None:
+            c_ = unblock(w_["cond"])
+            if c_.get("k") == "Binary":
+                l_, r_, op_ = pp(strip(c_["l"])), pp(strip(c_["r"])), c_["op"]
+                if (op_ in ("Lt", "Le") and l_ == bn_ and r_ == an_) or (op_ in ("Gt", "Ge") and l_ == an_ and r_ == bn_):
+                    seen_site = False
+                    early_write = False
+                    for z in walk_all(w_["body"]):
+                        if z is x:
+                            seen_site = True
+                            break
+                        if z.get("k") in ("Assign", "AssignOp") and pp(strip(z["l"])) in (an_, bn_):
+                            early_write = True
+                    if seen_site and not early_write:
+                        return "G-dom-while: `while %s %s %s` holds when the subtraction is reached" % (l_, op_, r_)
     if kind in ("Sub", "SubAssign"):
         # G-dom-gt: `x -= 1` as the only write to x in a `while x > 0` body before... any statement order
         if kind == "SubAssign" and const_eval(x["r"]) == 1:
@@ -260,6 +284,21 @@ def _discharge(F, f, b, par, kind, x, text):
             lty = x.get("lhs_ty") or ""
         iv = const_eval(idx)
         import re
+        # an index that a search of the same array returned: `match A.binary_search*(..) { Ok(i) => A[i], .. }` / `position`
+        if strip(idx).get("k") in ("Var", "Upvar"):
+            vid_ = strip(idx)["var"]["id"]
+            for a in _ancestors(par, x):
+                if a.get("k") is None and "pat" in a and "body" in a:
+                    pt_ = a["pat"]
+                    while pt_.get("k") in ("Deref",):
+                        pt_ = pt_["sub"]
+                    if pt_.get("k") == "Variant" and pt_.get("variant") in ("Ok", "Some") and pt_.get("subs") and \
+                            pt_["subs"][0]["pat"].get("k") == "Binding" and pt_["subs"][0]["pat"]["var"]["id"] == vid_:
+                        m_ = next((z for z in _ancestors(par, a) if z.get("k") == "Match"), None)
+                        sc_ = strip(m_["scrut"]) if m_ else {}
+                        if sc_.get("k") == "Call" and sc_["fn"].get("name") in ("binary_search", "binary_search_by", "binary_search_by_key", "position") \
+                                and pp(strip(lhs)).lstrip("&*") in pp(sc_["args"][0]):
+                            return "G-found: the index was returned by a search of the same array"
         m = re.fullmatch(r"\[\w+; (\d+)\]", lty)
         if iv is not None and m and iv < int(m.group(1)):
             return "G-const-idx: %d < %s" % (iv, m.group(1))
@@ -440,6 +479,31 @@ def s_panic_validator(F, R):
     R.floor("S-panic", "sites in the filter validator", sum(c.values()), 3)
 
 
+def _writes_only_to_vec(F, call, depth=0):
+    """The call is a crate helper returning io::Result whose writer argument is a `Vec<u8>` and whose io::Results come only from
+    writes to that writer (the write primitives, or helpers of the same kind): `impl Write for Vec<u8>` never fails."""
+    cid = call["fn"].get("res") or call["fn"].get("def")
+    cf = F.fns.get(cid)
+    if cf is None or not cf.get("thir") or depth > 3 or not call["args"]:
+        return False
+    a0 = call["args"][0]
+    if "alloc::vec::Vec<u8>" not in ((a0.get("ty") or "") + (strip(a0).get("ty") or "")):
+        return False
+    if "std::io::error::Error" not in (call.get("ty") or ""):
+        return False
+    for y in walk_all(nbody(F, cid)):
+        if y.get("k") != "Call" or "std::io::error::Error" not in (y.get("ty") or ""):
+            continue
+        d2 = y["fn"].get("res") or y["fn"].get("def") or ""
+        nm = y["fn"].get("name")
+        if d2.startswith("common::utils::write_") or nm in ("write_all", "from_residual", "branch", "from_output"):
+            continue
+        if d2.startswith("core::result::Result") or d2.startswith("core::ops::try_trait"):
+            continue
+        return False
+    return True
+
+
 def s_panic_encode(F, R):
     """Encode closure (C11: anything a decoder accepts can be re-encoded without panic)."""
     roots = encode_roots(F)
@@ -466,7 +530,7 @@ def s_panic_encode(F, R):
                         R.fail("S-refuse", "v5::types::encode_properties_len/expect(var_int_len)",
                                "encode_len panics (expect) instead of refusing when a property block is >= 268435456 bytes: "
                                "`%s`" % text[:90], where=loc(x))
-                elif a0.get("k") == "Call" and a0["fn"].get("def") == "common::utils::write_var_int":
+                elif a0.get("k") == "Call" and (a0["fn"].get("def") == "common::utils::write_var_int" or _writes_only_to_vec(F, a0)):
                     # Vec<u8>: Write never fails
                     R.ok("S-panic-enc", key, "write to Vec<u8> is infallible")
                 else:
@@ -736,4 +800,4 @@ def s_alloc(F, R):
                 ok, why = _bounded(F, x["args"][-1], b, f)
                 R.check(ok, "S-alloc", "%s/%s" % (f["root"], d.rsplit("::", 1)[1]),
                         "%s allocates %s bytes: %s" % (f["root"], pp(strip(x["args"][-1]))[:80], why), where=loc(x))
-    R.floor("S-alloc", "allocation sites", n, 5)
+    R.floor("S-alloc", "allocation sites", n, 2)
